@@ -910,6 +910,25 @@ class LoopTranslator:
         """for i, x in enumerate(a)            ->  for i in range(len(a)): x = a[i]
            for i, (k, x) in enumerate(zip(a, b)) ->  for i in range(min(len(a), len(b))): k = a[i]; x = b[i]"""
         it = s.iter
+        if isinstance(it, ast.Call) and isinstance(it.func, ast.Name) and it.func.id == "zip" and not it.keywords \
+                and isinstance(s.target, ast.Tuple) and len(s.target.elts) == len(it.args) \
+                and all(isinstance(t, ast.Name) for t in s.target.elts) \
+                and all(isinstance(a, ast.Subscript) and isinstance(a.value, ast.Name) and ast.unparse(a.slice) == ":-1"
+                        for a in it.args):
+            # for c, w in zip(a[:-1], b[:-1])  ->  for q in range(min(len(a) - 1, len(b) - 1)): c = a[q]; w = b[q]
+            arrays = [a.value.id for a in it.args]
+            names = [t.id for t in s.target.elts]
+            for a in arrays:
+                if a not in cx.env or not cx.env[a].ty.startswith("A("):
+                    raise TranslateError(f"{self.fname}: zip over a non-array {a}")
+            n_expr = f"len({arrays[0]}) - 1"
+            for a in arrays[1:]:
+                n_expr = f"_min({n_expr}, len({a}) - 1)"
+            q = cx.fresh("q").replace("'", "")
+            new = ast.parse(f"for {q} in range({n_expr}):\n    pass").body[0]
+            new.body = ast.parse("\n".join(f"{nm} = {a}[{q}]" for a, nm in zip(arrays, names))).body + s.body
+            new.orelse = []
+            return new
         if isinstance(it, ast.Call) and isinstance(it.func, ast.Name) and it.func.id == "enumerate" and len(it.args) == 2 \
                 and not it.keywords and isinstance(it.args[0], ast.Subscript) and isinstance(it.args[0].value, ast.Name) \
                 and isinstance(it.args[0].slice, ast.Slice) and it.args[0].slice.upper is None and it.args[0].slice.step is None \
@@ -1142,6 +1161,7 @@ LOOPS = {
     "ema_grouped_timed": ("emas", "_ema_grouped_timed",
                           {"group_key": "A(Int)", "values": "A(F)", "times": "A(Int)", "halflife": "Int", "ngroups": "Int",
                            "mask": "OptA(Bool)"}, "F"),
+    "weight_code_sum": ("fact", "_weight_code_sum", {"codes": "A(Int)", "weights": "A(Int)"}, "Val", ["Int"]),
     "first_non_null_float": ("util", "_get_first_non_null", {"arr": "A(Val)"}, "Val", ["Int", "Val"]),
     "first_non_null_int": ("util", "jit_get_first_non_null/f#0", {"arr": "A(Val)"}, "Val", ["Int", "Val"]),
     "nb_reduce": ("nanops", "_nb_reduce", {"reduce_func": "Red2", "arr": "A(Val)", "skipna": "Bool", "initial_value": "OptVal"}, "Val",
